@@ -7,6 +7,7 @@ mod p_ffi;
 mod p_hex;
 mod p_misc;
 mod p_rx;
+mod p_sec;
 mod p_ts;
 use fw::*;
 
@@ -25,6 +26,7 @@ fn exec(line: &str, model: &mut Model) -> Option<Exec> {
         "rx" | "fault" | "cor" => p_rx::exec(line, model),
         "ts.run" => p_ts::exec(line, model),
         "ffi" => p_ffi::exec(line, model),
+        _ if op.starts_with("sec.") => p_sec::exec(line, model),
         _ => None,
     }
 }
@@ -101,6 +103,7 @@ fn main() {
             "C18" => p_hex::generate(&mut ctx, &mut rep, &mut emit),
             "C01" | "C02" | "C03" | "C04" | "C15" => p_codec::generate(&prop, &mut ctx, &mut rep, &mut emit),
             "C14" => p_ffi::generate(&mut ctx, &mut rep, &mut emit),
+            "C16" => p_sec::generate(&mut ctx, &mut rep, &mut emit),
             "C09" => p_ts::generate(&mut ctx, &mut rep, &mut emit),
             "C05" | "C06" | "C19" => p_rx::generate(&prop, &mut ctx, &mut rep, &mut emit),
             "C07" | "C08" | "C10" | "C11" | "C12" | "C13" | "C17" => p_misc::generate(&prop, &mut ctx, &mut rep, &mut emit),
